@@ -225,5 +225,81 @@ def ed_encode_xy(x, y):
     return int(y + (1 << 255) * (x % 2)).to_bytes(32, "little")
 
 
+# ---- entropy streams (replay of counter-models and bounded search on functions that take an entropy function) ---------------
+import hashlib as _hl
+import os as _os
+_ENTROPY_INSTANCES = []
+_GLOBAL_ENTROPY_CALLS = [0]
+
+
+class ModelEntropy:
+    """An entropy function with a replayable stream: the k-th call returns the recorded block `calls[k]` when one of the requested
+    size was recorded (a solver model), `0xff..ff` for the first `ones` calls (forces rejections), otherwise a deterministic
+    pseudo-random block depending on (seed, k, n).  `at(k, n)` is the pure view used by the spec functions."""
+
+    def __init__(self, calls=None, seed=0, ones=0):
+        self.calls = dict(calls or {})
+        self.seed, self.ones = seed, ones
+        self.log = []
+        _ENTROPY_INSTANCES.append(self)
+
+    def at(self, k, n):
+        b = self.calls.get(k)
+        if b is not None and len(b) == n:
+            return b
+        if k < self.ones:
+            return b"\xff" * n
+        out, i = b"", 0
+        while len(out) < n:
+            out += _hl.sha256(b"%d:%d:%d:%d" % (self.seed, k, n, i)).digest()
+            i += 1
+        return out[:n]
+
+    def __call__(self, n):
+        k = len(self.log)
+        self.log.append(n)
+        return self.at(k, n)
+
+
+def _reset_entropy():
+    del _ENTROPY_INSTANCES[:]
+    _GLOBAL_ENTROPY_CALLS[0] = 0
+
+
 def ent(e, k, n):
-    raise NotImplementedError("entropy streams have no concrete twin")
+    return e.at(k, n)
+
+
+def topbits(m):
+    return size_bits(m) - 8 * (size_bytes(m) - 1)
+
+
+def cand(m, e, pos):
+    n = size_bytes(m)
+    blk = e.at(pos, n)
+    return (blk[0] % (1 << topbits(m))) * 256 ** (n - 1) + int.from_bytes(blk[1:], "big")
+
+
+def rr(m, e, pos):
+    """rejection sampling: the first candidate < m at or after block pos"""
+    for k in range(pos, pos + 100000):
+        c = cand(m, e, k)
+        if c < m:
+            return c
+    raise RuntimeError("rr: no accepted candidate in 100000 blocks")
+
+
+def entropy_pos(e):
+    return len(e.log)
+
+
+def entropy_calls():
+    return sum(len(e.log) for e in _ENTROPY_INSTANCES)
+
+
+def entropy_sizes_all(n):
+    return all(x == n for e in _ENTROPY_INSTANCES for x in e.log)
+
+
+def no_global_entropy():
+    return _GLOBAL_ENTROPY_CALLS[0] == 0
